@@ -1,7 +1,7 @@
 """C19 — vector kind/size conversions, swizzles, shuffles, colour helpers keep elements (DESIGN §6 C19)."""
 import core
 
-OPS = ["conv", "mat_resize", "swz", "named", "shuf", "full", "invert"]
+OPS = ["conv", "mat_resize", "swz", "named", "shuf", "full", "invert", "pixel"]
 
 
 def key(rec):
